@@ -77,9 +77,29 @@ def suite_analysis(seed, tier):
             cut = rng.randint(1, len(rows) - 1)
             np.save(tmp / f"s{k}a.npy", P[:cut])
             np.save(tmp / f"s{k}b.npy", P[cut:])
+            # a second sequence: 2..12 parts whose names are NOT in lexicographic order in the order given
+            # (descending names / unpadded part numbers / different directories): the order of the sequence
+            # is the caller's, and it defines the global row index
+            m = min(len(rows), rng.choice([2, 3, 5, 11, 12]))
+            cuts = sorted(rng.sample(range(1, len(rows)), m - 1)) if m > 1 else []
+            bounds = [0] + cuts + [len(rows)]
+            scheme = rng.choice(["descending", "unpadded", "dirs"])
+            packed2 = rng.random() < 0.5
+            seq2 = []
+            for j in range(m):
+                if scheme == "descending":
+                    pth = tmp / f"t{k}-{chr(ord('z') - j)}.npy"
+                elif scheme == "unpadded":
+                    pth = tmp / f"t{k}-chunk-{j}.npy"
+                else:
+                    (tmp / f"d{k}-{(m - j):02d}").mkdir(exist_ok=True)
+                    pth = tmp / f"d{k}-{(m - j):02d}" / "part.npy"
+                np.save(pth, (P if packed2 else A)[bounds[j]:bounds[j + 1]])
+                seq2.append(pth)
             provs = [("array-unpacked", A, False), ("array-packed", P, True),
                      ("file-unpacked", tmp / f"u{k}.npy", False), ("file-packed", tmp / f"p{k}.npy", True),
-                     ("fileseq-packed", [tmp / f"s{k}a.npy", tmp / f"s{k}b.npy"], True)]
+                     ("fileseq-packed", [tmp / f"s{k}a.npy", tmp / f"s{k}b.npy"], True),
+                     (f"fileseq-{scheme}-{m}-parts", seq2, packed2)]
             res = []
             for name, prov, packed in provs:
                 ca = cluster_analysis(clusters, prov, n_features=nf, top=top, min_size=min_size,
